@@ -86,6 +86,7 @@ func c07(tier string) []*explore.Scenario {
 	for j := 0; j <= 2; j++ {
 		out = append(out, c07Deadline(j, bound, false), c07Deadline(j, bound, true))
 	}
+	out = append(out, apiSeqs("C07", tier)...)
 	return out
 }
 
